@@ -4,7 +4,8 @@
    paramiko/sftp_file.py: _write, _async_response (write answers), _check_exception, _close, set_pipelined),
   a FIFO server that answers every request exactly once (write faults chosen by a plan), and the bulk-transfer
   loop of putfo on top.  Sequential client (one application thread); the server may run at any time
-  (`Op.serve k`) and is forced to run when the client waits on an empty queue.
+  (`Op.serve k`), its answers may overtake each other (`Op.deliver k`: responses are matched by id), and it is
+  forced to run when the client waits on an empty queue.
 
   Mirrors the code *after* the C29/C30 client fix: pipelined writes are registered under their file object,
   their statuses are collected by `_async_response`, and `close()` drains, checks and re-raises.
@@ -65,6 +66,7 @@ inductive Op where
   | close (f : Nat)
   | setPipelined (f : Nat) (b : Bool)
   | serve (k : Nat)
+  | deliver (k : Nat)
   deriving Repr, DecidableEq
 
 def newFile : FileSt := { pipelined := false, reqs := [], saved := none, pos := 0, closed := false }
@@ -262,6 +264,13 @@ def closeFile (s : St) (f : Nat) : St × Res :=
       | (s2, .hang) => (s2, .hang)
       | (s2, _) => (s2, pending)
 
+/-- responses are matched by id, so the server (or the network) may hand an already answered request's response
+    over before older ones: the `k`-th entry of the wire, if it has been answered, moves to the front -/
+def deliverFirst (w : List Slot) (k : Nat) : List Slot :=
+  match w[k]? with
+  | some sl => if sl.resp.isSome then sl :: (w.take k ++ w.drop (k + 1)) else w
+  | none => w
+
 def stepOp (s : St) : Op → St × Res
   | .write f data =>
     let fs := getFile s f
@@ -278,6 +287,7 @@ def stepOp (s : St) : Op → St × Res
     if was && !b then (resetBad (drainCheck s0 f).1 f (drainCheck s0 f).2, (drainCheck s0 f).2)
     else (s0, .ok)
   | .serve k => (serveMany k s, .ok)
+  | .deliver k => ({ s with wire := deliverFirst s.wire k }, .ok)
 
 def runOps (s : St) : List Op → St × List Res
   | [] => (s, [])
